@@ -60,9 +60,10 @@ def random_script(rng, level, size, skip, mx, n):
         elif r < 0.97:
             steps.append({"a": "tick"})
         elif r < 0.985:
-            steps.append({"a": "unbind", "s": s})
-            steps.append({"a": "tick"})
-            steps.append({"a": "bind", "s": s, "nack": True})
+            if rng.random() < 0.7:
+                steps.append({"a": "unbind", "s": s})
+                steps.append({"a": "tick"})
+            steps.append({"a": "bind", "s": s, "nack": True})       # (without the unbind: bound again while bound - starts fresh)
             pending[s] = []
         else:
             steps.append({"a": "tick"})
